@@ -85,9 +85,9 @@ static const family F08Q[] = {
     { "k-th growth request fails, 8x8 NATURAL order (all four array kinds grow): DEV_1(BASE(8)) first 3 deviations x vals2 x tune4 x type4 x k{1..24} x {LU, ILU with fill factor 1}", 7, { 9, 2, 4, 4, 24, 3, 2 }, set08K8 },
 };
 static const family F08T[] = {
-    { "workspace sweep 12x12 (4 block/grid patterns + 12 generated patterns) x vals2 x tune{default,(3,8,8..),(8,4,16..)} x type4 x every multiple of 4 up to 24 KiB x align{0,4} x {LU, ILU with fill factor 1}", 7, { 16, 2, 3, 4, 6144, 2, 2 }, set08W12 },
+    { "workspace sweep 12x12 (4 block/grid patterns + 12 generated patterns) x vals2 x tune{default,(3,8,8..),(8,4,16..)} x type4 x every multiple of 4 up to 16 KiB x align{0} x {LU, ILU with fill factor 1}", 7, { 16, 2, 3, 4, 4096, 1, 2 }, set08W12 },
     { "workspace sweep 8x8: BASE(8) NATURAL x vals2 x tune4 x type4 x lengths{68.. step 4 cycling residues, 1400 lengths} x align2 x {LU, ILU with fill factor 1}", 7, { 9, 2, 4, 4, 1400, 2, 2 }, set08W8 },
-    { "workspace sweep: BASE(6) x vals2 x colperm4 x tune4 x type4 x {LU,ILU} x every byte length 1..3584 x align{0,4}", 8, { 9, 2, 4, 4, 4, 2, LMAX_T, 2 }, set08W },
+    { "workspace sweep: BASE(6) x vals2 x colperm4 x tune3 x type4 x {LU,ILU} x every byte length 1..3584 x align{0,4}", 8, { 9, 2, 4, 3, 4, 2, LMAX_T, 2 }, set08W },
     { "workspace sweep on DEV_1(BASE(6)) x tune3 x type4 x lengths{32..4096 step 32} x align2", 6, { 9, 37, 3, 4, 128, 2 }, set08Wd },
     { "size query lwork=-1: BASE(6) x dev{0..36} x vals3 x tune8 x type4 x {LU,ILU} x Equil2 x Fact3 x fill5", 9, { 9, 37, 3, 8, 4, 2, 2, 3, 5 }, set08Q },
     { "k-th growth request fails: DEV_1(BASE(6)) x vals3 x colperm4 x tune8 x type4 x {LU,ILU} x k{1..20}", 8, { 9, 37, 3, 4, 8, 4, 2, 20 }, set08K },
